@@ -61,13 +61,14 @@ Definition env_of (rws : list Z) (expired modified : bool) : env :=
   mkEnv rws (fun _ => expired) (fun _ => expired) (fun _ => true) (fun _ => modified).
 
 (* s.add(o1); s.commit(); s.delete(o1); s.add(o0) with the same primary key; s.get(A, 1):
-   the autoflush inside get moves o1 to "deleted" and maps o0, yet get returns o1 *)
+   the autoflush inside get moves o1 to "deleted" and maps o0; get used to return o1 (repaired in /repo 69ec57b),
+   now it returns the mapped object o0 *)
 Definition h_get_stale : list (env * op) :=
   [(env_of [] false false, Add 1); (env_of [] false false, Commit); (env_of [1] true false, Delete 1);
    (env_of [1] true false, Add 0)].
-Lemma get_stale : let st := run h_get_stale (init true [1; 1]) in
+Lemma get_after_row_switch : let st := run h_get_stale (init true [1; 1]) in
   let r := step (env_of [1] true false) (Get 1 0) st in
-  rerr r = 0 /\ robjs r = [1%nat] /\ holder (1, 0) (rst r) = Some 0%nat /\ persistent (get (rst r) 1) = false.
+  rerr r = 0 /\ robjs r = [0%nat] /\ holder (1, 0) (rst r) = Some 0%nat /\ persistent (get (rst r) 1) = false.
 Proof. vm_compute. repeat split; reflexivity. Qed.
 
 (* a primary key change is flushed, the object is expunged, the transaction is rolled back:
